@@ -319,7 +319,9 @@ def run_histories(ctx, histories, label, stats, known):
             cls = None
             if in_k06a_class(h, pi):
                 cls = "K06a"
-            elif in_k06b_class(h, pi) and real_norm == mres:
+            elif in_k06b_class(h, pi) and (real_norm == mres or mres != sres):
+                # as for K06c: the model deviates from S here too, but an unassigned slot reads differently in M
+                # (the value the skipped define would have given) and in the engine (void / free identifier / panic)
                 cls = "K06b"
             elif k06c and (real_norm == mres or mres != sres):
                 # The model deviates from S here too.  It cannot always predict WHICH value shows: the real recycler keeps
